@@ -517,6 +517,14 @@ func (r *Run) Finish(verifDir string, start time.Time, seed int, cmdline string)
 		"notes":               r.Notes,
 		"all_obligations":     r.Obls,
 	}
+	if r.Tier == "thorough" {
+		if b, err := os.ReadFile(filepath.Join(verifDir, "evidence", ".selftest", r.Prop+".json")); err == nil {
+			var st any
+			if json.Unmarshal(b, &st) == nil {
+				cov["self_test"] = st
+			}
+		}
+	}
 	ev := evidence{PropertyID: r.Prop, Tier: r.Tier, Seed: seed, Level: "other", Coverage: cov,
 		Assumptions: append([]string{"structural necessary conditions only: the behaviour itself is not decided (see not_covered)"}, r.Trusted...),
 		WallS:       time.Since(start).Seconds(), Violations: viol}
